@@ -72,7 +72,9 @@ func runDispCase(base string, c dispCase, rng *hx.Rand) (dispOutcome, map[uint64
 	content := map[string][]byte{}
 	for i := 0; i < c.nfiles; i++ {
 		var size int
-		switch rng.Intn(6) {
+		switch rng.Intn(7) {
+		case 6:
+			size = c.cs*(57+rng.Intn(90)) + rng.Intn(c.cs) // a bitmap longer than a machine word
 		case 0:
 			size = 0
 		case 1:
